@@ -1,5 +1,6 @@
 import MJ.Model.Path
 import MJ.Model.PathPlat
+import MJ.Model.PathRoutes
 /-!
 Line driver for C17.  Input: harness lines `case<TAB>…` (only the case is read).  Cases
 
@@ -13,6 +14,11 @@ Line driver for C17.  Input: harness lines `case<TAB>…` (only the case is read
   `f:<content>`), then ` | ` and the store afterwards.  Each step's snapshot holds `<disk>`
   (`-` not found, `!` other error, else the content) at `<path>` and nothing anywhere else;
   `<path>` is where the REAL `safe_join` pointed, so a model that joins differently reads nothing.
+* `route <base> <cb:0|1> <token> …` → the routes model (`MJ/Model/PathRoutes.lean`): tokens
+  `o,<entry>,<name>,<parent>` (one template over the route `env|state|include|import|from|extends`),
+  `c,<parent>,<name>,<name>…` (a list of include choices) are the requests, in order; tokens
+  `s,<path>,<disk>` make the snapshot (as for `hist`).  `cb` = 1 installs the documented relative
+  path-join callback (`docJoin`).  Answer: `<f|nf|e>,… | <names the loader closure is called with>,…`.
 
 Strings are percent-encoded UTF-8 (bytes `0x21..0x7e` except `%` and `,` stand for themselves,
 everything else is `%xx`); `flags` = `R`/`r` (has root or not) then `C`/`c` (leading `.` component
@@ -121,6 +127,46 @@ def handle (line : String) : String :=
           | some x => (acc.1.after [x], acc.2 ++ (acc.1.run [x]).map fun y => showR y.2)) (e0, [])
       let ts := e.templates.map fun x => enc x.1 ++ "=" ++ String.ofList x.2
       " ".intercalate rs ++ " | " ++ ";".intercalate ts
+  | "route" :: b :: cb :: toks =>
+    match dec b with
+    | none => "bad-case"
+    | some b =>
+      let entryOf : String → Option Entry
+        | "env" => some .envGetTemplate | "state" => some .stateGetTemplate | "include" => some .includeStmt
+        | "import" => some .importStmt | "from" => some .fromImportStmt | "extends" => some .extendsStmt
+        | _ => none
+      let decAll (l : List String) : Option (List Str) := l.mapM dec
+      let reqs : List (Option Req) := toks.filterMap fun t =>
+        match t.splitOn "," with
+        | ["o", e, n, p] =>
+          some (match entryOf e, dec n, dec p with
+            | some e, some n, some p => some (Req.one e n p)
+            | _, _, _ => none)
+        | "c" :: p :: ns =>
+          some (match dec p, decAll ns with
+            | some p, some ns => some (Req.choices ns p)
+            | _, _ => none)
+        | _ => none
+      let snaps : List (Option (Str × ReadResult)) := toks.filterMap fun t =>
+        match t.splitOn "," with
+        | ["s", hp, res] =>
+          some ((dec hp).map fun hp =>
+            (hp, if res = "-" then ReadResult.notFound else if res = "!" then .failed else .content res.toList))
+        | _ => none
+      if reqs.any Option.isNone || snaps.any Option.isNone then "bad-case" else
+      let tbl := snaps.filterMap id
+      let fs : Snapshot := fun p => match tbl.find? (fun x => x.1 = p) with
+        | some x => x.2
+        | none => .notFound
+      let g0 := Engine.new b (if cb = "1" then some docJoin else none)
+      let showR : LoadResult → String
+        | .found _ => "f"
+        | .missing => "nf"
+        | .unreadable => "e"
+      let (_, ans, calls) := (reqs.filterMap id).foldl (fun (acc : Engine × List String × List Str) r =>
+          ((acc.1.serve fs r).2, acc.2.1 ++ [showR (acc.1.serve fs r).1], acc.2.2 ++ acc.1.loaderCalls fs r))
+        (g0, [], [])
+      ",".intercalate ans ++ " | " ++ ",".intercalate (calls.map enc)
   | _ => "bad-case"
 
 partial def loop (h : IO.FS.Stream) (out : IO.FS.Stream) : IO Unit := do
